@@ -177,6 +177,17 @@ def c15_mutation_case(rng, res, batch, tag):
     top = objs[0]
     hist = []
     for step in range(rng.randint(2, 6)):
+        if rng.random() < 0.35:
+            # a scan of the same scheduler that is abandoned half-way (the caller breaks out of the loop)
+            it = top.topological_order()
+            k = rng.randint(0, n - 1)
+            try:
+                for _ in range(k):
+                    next(it)
+            except (StopIteration, Exception):          # noqa
+                pass
+            del it
+            hist.append(["abandon-scan", k])
         x, y = rng.sample(range(1, n + 1), 2)
         if objs[y] in objs[x].required and rng.random() < 0.6:
             objs[x].requires(objs[y], remove=True)
@@ -197,6 +208,72 @@ def c15_mutation_case(rng, res, batch, tag):
         if obs.startswith("ok") != ac:
             res.violations.append(("topological_order raises iff cyclic, after edits", case))
         res.nontrivial.add(("mut", n, tuple(map(tuple, hist))))
+
+
+def c15_tree_mutation_case(rng, res, batch, tag):
+    """a nested scheduler is made cyclic, the tree is listed / exported / checked (scans of the enclosing scheduler are
+    cut short by the failure), the cycle is repaired: everything must answer as for a fresh acyclic tree again"""
+    n = rng.randint(2, 4)
+    edges = [(x, y) for x in range(n) for y in range(x) if rng.random() < 0.5]
+    spec = norm_spec(place_in_tree(rng, n, edges))
+    spec["labels"] = {j: "L%d" % j for j in range(spec["n"])}
+    objs = build(spec)
+    top = objs[0]
+    inner = max(spec["sched"])                      # the deepest scheduler holds the n jobs
+    members = spec["mem"][inner]
+    hist = []
+    a, b = (rng.sample(members, 2) if len(members) >= 2 else (members[0], members[0]))
+    for rounds in range(rng.randint(1, 3)):
+        # make it cyclic: a -> b and b -> a
+        if a != b:
+            objs[a].requires(objs[b])
+            objs[b].requires(objs[a])
+            hist.append(["cycle", a, b])
+        for probe in rng.sample(["list", "dot", "check", "topo-partial"], rng.randint(1, 3)):
+            hist.append([probe])
+            try:
+                with contextlib.redirect_stdout(io.StringIO()):
+                    if probe == "list":
+                        top.list()
+                    elif probe == "dot":
+                        top.dot_format()
+                    elif probe == "check":
+                        top.check_cycles()
+                    else:
+                        it = top.topological_order()
+                        next(it)
+                        del it
+            except Exception:                       # noqa
+                pass
+        # repair: drop one of the two edges (keep the graph acyclic as it was, plus possibly a -> b)
+        if a != b:
+            objs[b].requires(objs[a], remove=True)
+            if (a, b) not in {(x + min(members), y + min(members)) for x, y in edges} and rng.random() < 0.5:
+                objs[a].requires(objs[b], remove=True)
+            hist.append(["repair", a, b])
+        case = dict(kind="tree-history", spec=spec, history=list(hist), tag=tag)
+        res.evaluations += 1
+        res.nontrivial.add(("treemut", str(hist), str(sorted(spec["mem"].items()))))
+        scheds = subtree_scheds(spec, 0)
+        ok_all = True
+        for sx in scheds:
+            mem = [k.jid for k in objs[sx].jobs]
+            E = {(x, r.jid) for x in mem for r in objs[x].required if r.jid in mem}
+            ok_all = ok_all and acyclic(mem, E)
+        enc = encode(objs)
+        cc = try_call(top.check_cycles)
+        batch.add("cyclesN", case, "cyclesN %s s=0" % enc, "true" if cc == ("ok", True) else "false" if cc == ("ok", False) else str(cc))
+        obs = topo_obs(objs[inner])
+        batch.add("topo", case, "topo %s s=%d ext=" % (enc, inner), obs)
+        if cc != ("ok", ok_all):
+            res.violations.append(("check_cycles() = %s on a tree whose schedulers are %s, after a history of failed scans and a repair"
+                                   % (cc, "all acyclic" if ok_all else "not all acyclic"), case))
+        if ok_all:
+            if not obs.startswith("ok"):
+                res.violations.append(("topological_order() raises on an acyclic scheduler after a history of failed scans and a repair", case))
+            r = try_call(top.list)
+            if r[0] != "ok":
+                res.violations.append(("list() raises on an acyclic tree after a history of failed scans and a repair", case))
 
 
 def place_in_tree(rng, n, edges):
@@ -281,6 +358,8 @@ def run_C15(tier, seed, res, drv, replay=None):
         c15_tree_case(spec, res, batch, "tree")
     for i in range(300 if tier == "quick" else 5000):
         c15_mutation_case(rng, res, batch, "mut")
+    for i in range(300 if tier == "quick" else 5000):
+        c15_tree_mutation_case(rng, res, batch, "treemut")
     batch.flush()
 
 
